@@ -840,6 +840,10 @@ pub struct PathCase {
     /// replace the request's family by this (afi, safi) after the mutations
     #[serde(default)]
     pub family_override: Option<(i32, i32)>,
+    /// shift the request's (afi, safi) by (k * 65536, j * 256): values outside the wire range, above or
+    /// below it, whose low bits spell the family the NLRI belongs to
+    #[serde(default)]
+    pub family_alias: Option<(i8, i8)>,
 }
 
 fn path_of(c: &PathCase) -> Option<(Family, api::Path)> {
@@ -877,7 +881,11 @@ pub fn check_api_path(c: &PathCase) -> CheckResult {
     if let Some((afi, safi)) = c.family_override {
         path.family = Some(api::Family { afi, safi });
     }
-    let changed = changed || c.family_override.is_some();
+    if let (Some((k, j)), Some(f)) = (c.family_alias, path.family.as_mut()) {
+        f.afi = f.afi.wrapping_add(k as i32 * 65536);
+        f.safi = f.safi.wrapping_add(j as i32 * 256);
+    }
+    let changed = changed || c.family_override.is_some() || c.family_alias.is_some();
     let rt = tokio::runtime::Builder::new_current_thread().enable_all().build().map_err(|e| Failure::new("harness", e.to_string()))?;
     let rig = rt.block_on(async { crate::event::verif::ApiRig::new() });
     let family_api = path.family.unwrap_or(api::Family { afi: 1, safi: 1 });
@@ -954,6 +962,7 @@ pub fn check_listing_nexthop(v6: &bool) -> CheckResult {
         identifier: 0,
         muts: vec![],
         family_override: None,
+        family_alias: None,
     };
     let Some((_, path)) = path_of(&c) else { return Err(Failure::new("harness", "no seed")) };
     let rt = tokio::runtime::Builder::new_current_thread().enable_all().build().map_err(|e| Failure::new("harness", e.to_string()))?;
@@ -970,9 +979,10 @@ pub fn check_listing_nexthop(v6: &bool) -> CheckResult {
 
 pub fn arb_path_case() -> impl Strategy<Value = PathCase> {
     let fam_override = proptest::option::weighted(0.08, (prop_oneof![Just(1i32), Just(2), Just(25), Just(65537), Just(65538), Just(-1), Just(0)], prop_oneof![Just(1i32), Just(2), Just(128), Just(257), Just(258), Just(384), Just(-1), Just(0)]));
-    (arb_nlri_case(), arb_attr_case(), 0u8..3, any::<bool>(), prop_oneof![3 => Just(0u32), 1 => any::<u32>()], pb::arb_mutations(3), fam_override).prop_map(|(nlri, mut attrs, nh_form, nh_v6, identifier, muts, family_override)| {
+    (arb_nlri_case(), arb_attr_case(), 0u8..3, any::<bool>(), prop_oneof![3 => Just(0u32), 1 => any::<u32>()], pb::arb_mutations(3), fam_override, proptest::option::weighted(0.06, (-2i8..3, -2i8..3))).prop_map(|(nlri, mut attrs, nh_form, nh_v6, identifier, muts, family_override, family_alias)| {
         attrs.rich.clear();
-        PathCase { nlri, attrs, nh_form, nh_v6, identifier, muts, family_override }
+        let family_alias = family_alias.filter(|a| *a != (0, 0));
+        PathCase { nlri, attrs, nh_form, nh_v6, identifier, muts, family_override, family_alias }
     })
 }
 
